@@ -255,7 +255,24 @@ func runCheck(prop, tier, only string, budgetOverride time.Duration) int {
 	if n > 16 {
 		n = 16
 	}
-	replayDir := filepath.Join(verifDir, "replays")
+	// workers write every witness into the scratch directory; only the ones that are printed
+	// (one per distinct violation signature, one per known finding) are kept in /verif/replays
+	replayDir := filepath.Join(scratch, "replays")
+	keep := func(path string) string {
+		if path == "" {
+			return path
+		}
+		b, err := os.ReadFile(path)
+		if err != nil {
+			return path
+		}
+		dst := filepath.Join(verifDir, "replays", filepath.Base(path))
+		os.MkdirAll(filepath.Dir(dst), 0o755)
+		if os.WriteFile(dst, b, 0o644) != nil {
+			return path
+		}
+		return dst
+	}
 	// job list
 	jobsOut, err := exec.Command(worker, "-jobs", "-prop", prop, "-tier", tier).Output()
 	if err != nil {
@@ -433,14 +450,14 @@ func runCheck(prop, tier, only string, budgetOverride time.Duration) int {
 			seenKnown[k.Signature]++
 			if !printed["known:"+k.Signature] {
 				printed["known:"+k.Signature] = true
-				fmt.Printf("KNOWN-FINDING: property=%s %s [%s] e.g. %s replay=%s\n", prop, k.What, v.Sig, v.Scenario, v.Replay)
+				fmt.Printf("KNOWN-FINDING: property=%s %s [%s] e.g. %s replay=%s\n", prop, k.What, v.Sig, v.Scenario, keep(v.Replay))
 			}
 			continue
 		}
 		nviol++
 		if !printed[v.Sig] {
 			printed[v.Sig] = true
-			fmt.Printf("VIOLATION property=%s replay=%s\n", prop, v.Replay)
+			fmt.Printf("VIOLATION property=%s replay=%s\n", prop, keep(v.Replay))
 			fmt.Printf("  signature=%s scenario=%s\n  %s\n", v.Sig, v.Scenario, strings.ReplaceAll(v.Msg, "\n", "\n  "))
 		}
 	}
